@@ -101,7 +101,7 @@ E = "a node that always breaks (code block with two statements or with a comment
 kf("K8a-C03", "E forced-break-under-suppression", "C03", r"^C03\|not-idempotent\|spine=(mixed|math_i|math_b|math_hash|item|heading|strong)/[^|]*(block2_semi|block2_ml|import\w*|table\w*|grid\w*)[^|]*\|size=", "foo #({a; b},) bar", E, "not-idempotent")
 kf("K8a2-C03", "E forced-break-under-suppression (text line built by a production)", "C03", r"^C03\|not-idempotent\|spine=(doc/(hash_text|hash_tight|text_hash)(@\d)?|hash/[^/|]+)/[^|]*(block2_semi|block2_ml|import\w*|table\w*|grid\w*)\|size=", "#if a { import \"m.typ\": a } foo", E + " - here the text line comes from a production (code followed by text on the same line; in markup a binary operator after an embedded expression is text)", "not-idempotent")
 kf("K8k-C03", "E forced-break-under-suppression (with a deviation elsewhere)", "C03", r"^C03\|not-idempotent\|dev=.*\|at=(mixed|math_i|math_b|math_hash|hash|item|heading|strong|let|arg|doc)/.*(block2_semi|block2_ml)", "#if a { {b; c} } elseif d { e }", E, "not-idempotent")
-kf("K6-C03", "D5 list-after-bracket-unbreakable", "C03", r"^C03\|not-idempotent\|(spine|dev=.*\|at)=(mixed|strong|heading|item)/content\w*@0/(list|enum|term)\w*", "foo #[- foo\n- bar] bar", D5 + " - with tab width 8 the first pass nests the second item and the second pass nests it further", "not-idempotent")
+kf("K6-C03", "D5 list-after-bracket-unbreakable", "C03", r"^C03\|not-idempotent\|(spine=|dev=.*\|at=|extra=gen2:)(mixed|strong|heading|item)/content\w*@0/(list|enum|term)\w*", "foo #[- foo\n- bar] bar", D5 + " - with tab width 8 the first pass nests the second item and the second pass nests it further", "not-idempotent")
 kf("K8l-C03", "directive at the end of a list item line", "C03", r"^C03\|not-idempotent\|(.*&)?dev=markup:(ListItem>Markup\[Text\^ListMarker\]|Markup>(List|Enum)Item\[(List|Enum)Marker\^(List|Enum)Marker\]):(off_lc|off_reason)", "#g[\n  -// @typstyle off\n- foo\n      bar\n]", "a line-comment directive at the end of a list item line protects the following list item; its verbatim text keeps the source indentation, which the next pass reads as a different nesting", "not-idempotent")
 kf("K8b-C03", "E forced-break-under-suppression", "C03", r"^C03\|not-idempotent\|(.*&)?dev=code:\w+>(CodeBlock|Code)\[[^\]]*\]:(bc|bc_sp|bc_ml|bc_star|bc_bc|nl_bc_nl|lc|lc_sp|lc_lc|nl_lc|off_bc|off_lc|off_tight|off_reason|off_mid|bc_ws_line|bc_blank|bc_tab|bc_uni)", "$#g({a/*c1*/})$", E, "not-idempotent")
 kf("K8c-C03", "E / trivia inside a field access chain", "C03", r"^C03\|not-idempotent\|(.*&)?dev=\w+:\w+>FieldAccess\[.*\|at=.*(block2_semi|block2_ml|import\w*|table\w*|grid\w*)", "#a.f({b; c}).\ng(d)", "a line break or comment inside a method chain whose call arguments hold a node that always breaks: " + E, "not-idempotent")
